@@ -60,6 +60,7 @@ class BaseValidator(object):
         self._expected_item_count = len(self._cid.field_formats)
         self._location = None
         self._is_closed = False
+        self._has_reset_checks = False
 
     def __enter__(self):
         return self
@@ -113,6 +114,10 @@ class BaseValidator(object):
         assert row is not None
         assert self.location is not None
 
+        if not self._has_reset_checks:
+            # A run that feeds its rows directly must not see what the CID was used for before.
+            self._reset_checks()
+
         # Validate that number of fields.
         actual_item_count = len(row)
         if actual_item_count < self._expected_item_count:
@@ -149,6 +154,14 @@ class BaseValidator(object):
         field_map = _create_field_map(self.cid.field_names, row)
         for check_name in self.cid.check_names:
             self.cid.check_map[check_name].check_row(field_map, self.location)
+
+    def _reset_checks(self):
+        """
+        Reset all checks, which marks the beginning of a run.
+        """
+        for check in self.cid.check_map.values():
+            check.reset()
+        self._has_reset_checks = True
 
     def close(self):
         """
@@ -329,6 +342,7 @@ class Writer(BaseValidator):
             raise NotImplementedError("data_format=%r" % data_format.format)
         for check in self.cid.check_map.values():
             check.reset()
+        self._has_reset_checks = True
 
     @property
     def location(self):
